@@ -302,7 +302,7 @@ loop:
 		}
 		if !stopped && d >= stopAt {
 			stopped = true
-			go func() { shutdownGracefully(sys.Srv, sys.LB, 3*time.Second); close(shutdownDone) }()
+			go func() { callShutdown(sys.Srv, sys.LB, 3*time.Second); close(shutdownDone) }()
 		}
 		longest := time.Duration(0)
 		for g := range opStart {
@@ -348,7 +348,7 @@ loop:
 		return
 	}
 	if !stopped {
-		go func() { shutdownGracefully(sys.Srv, sys.LB, 3*time.Second); close(shutdownDone) }()
+		go func() { callShutdown(sys.Srv, sys.LB, 3*time.Second); close(shutdownDone) }()
 	}
 	// the shutdown (3 s timeout) has to come back; 30 s of real time is a generous bound after which the goroutines
 	// are examined the same way as for a stalled operation
